@@ -22,6 +22,12 @@ def proved_names(pr, info):
     return sorted(byid[i] for i in ids if i in byid)
 
 
+def known_ob_tangent_flag(n, vn, names):
+    """Oblivion streams: NiGeometryData::Sync clears bit 12 of dataFlags in place before writing it
+    (Geometry.cpp:52-54); only that field, only for the Oblivion version triples"""
+    return vn.startswith("OB") and names == ["scalar NiGeometryData::dataFlags"]
+
+
 def run(tier, seed, replay=None):
     rep = vlib.Reporter(PID, tier, seed)
     hygiene = vlib.coq_hygiene()
@@ -39,14 +45,30 @@ def run(tier, seed, replay=None):
     env = {"VERIF_SAMPLES": samples_dir}
     fails, mism = [], []
     stats = {"block_instances": 0, "model_compared": 0, "sample_save3": 0}
+    idname = {v: k for k, v in info["names"].items()} if isinstance(info.get("names"), dict) else {}
     if replay:
         r = json.load(open(replay))
         cases = [(r["case"], r.get("type", ""), r.get("ver", ""), 0)] if r.get("case", "").startswith("blk") else []
         scases = [r["case"]] if r.get("case", "").startswith("save3") else []
     else:
         cases = be.block_cases(info["blocks"], vers, seeds) + be.block_cases(lost, list(be.VERS), [seed + k for k in range(20)])
+        # pinned cases first (inputs of the known findings, instances whose flag words have high bits set)
+        cp = os.path.join(vlib.ROOT, "corpus", PID, "cases.txt")
+        if os.path.exists(cp):
+            vname = {v: k for k, v in be.VERS.items()}
+            pinned = []
+            for line in open(cp):
+                line = line.strip()
+                if line.startswith("blk "):
+                    kvp = dict(t.split("=", 1) for t in line.split()[1:])
+                    pinned.append((line, kvp["type"], vname.get(kvp["ver"], kvp["ver"]), int(kvp["seed"])))
+            cases = pinned + cases
         samples = sorted(f for f in os.listdir(samples_dir) if f.endswith(".nif"))
         scases = ["save3 name=%s opts=%s" % (f, o) for f in samples for o in ("raw", "default")]
+        # edited models: one child reference emptied (a sub-tree becomes unreferenced), then three default saves
+        erng = random.Random(seed * 7919 + 13)
+        nedit = 3 if tier == "quick" else 25
+        scases += ["save3 name=%s opts=default edit=%d" % (f, erng.randrange(0, 400)) for f in samples for _ in range(nedit)]
     res = be.par_run(plain, "blocks", [c[0] for c in cases], timeout=120)
     items = []
     for (c, n, vn, s), (_, l, crash) in zip(cases, res):
@@ -68,6 +90,36 @@ def run(tier, seed, replay=None):
         why = be.compare_model(kv, l)
         if why:
             mism.append({"case": c, "type": n, "ver": vn, "disagreement": why, "model": (l or str(crash))[:1000]})
+    # second pass: the model reads the bytes the instance was GENERATED from (b0) and writes; its output must be
+    # the implementation's first Put (b1), and the fields the write altered in the object just read are listed
+    items0 = [(n, vn, kv, c) for (n, vn, kv, c) in items if kv.get("b0")]
+    mres0 = be.par_run(model, "syncir", be.model_cases(info, [(n, vn, kv["b0"]) for (n, vn, kv, c) in items0]), timeout=180)
+    for (n, vn, kv, c), (mc, l, crash) in zip(items0, mres0):
+        if l is None or not l.startswith("M=consumed"):
+            continue
+        mk = be.kv_of(l)
+        stats["model_read_generated"] = stats.get("model_read_generated", 0) + 1
+        if mk.get("out") != kv["b1"] or mk.get("consumed") != "1":
+            if kv.get("rt") == "1":
+                mism.append({"case": c, "type": n, "ver": vn, "disagreement": ["model(b0) does not print the implementation's Put(o)"], "model": l[:1000], "b0": kv["b0"][:1000]})
+            continue
+        alt = [("scalar", x) for x in mk.get("alt_i", "").split(",") if x] + [("size", x) for x in mk.get("alt_s", "").split(",") if x] \
+            + [("bytes", x) for x in mk.get("alt_b", "").split(",") if x]
+        if alt:
+            stats["altering_instances"] = stats.get("altering_instances", 0) + 1
+            names = sorted({"%s %s" % (k, idname.get(int(x), x)) for k, x in alt})
+            stats.setdefault("altering_kinds", {})
+            kk = "%s: %s" % (n, ", ".join(names))
+            stats["altering_kinds"][kk] = stats["altering_kinds"].get(kk, 0) + 1
+            if known_ob_tangent_flag(n, vn, names) and any(k["id"] == "C02-ob-tangents-dropped" for k in rep.known):
+                rep.known_finding("C02-ob-tangents-dropped", c)
+            elif n == "NiPalette" and names == ["bytes NiPalette::palette[]", "size NiPalette::palette"] and any(k["id"] == "C02-nipalette-resized-on-save" for k in rep.known):
+                rep.known_finding("C02-nipalette-resized-on-save", c)
+            elif n == "NiStringPalette" and names == ["scalar NiStringPalette::length"] and any(k["id"] == "C02-stringpalette-length-rewritten" for k in rep.known):
+                rep.known_finding("C02-stringpalette-length-rewritten", c)
+            else:
+                fails.append({"case": c, "type": n, "ver": vn, "what": "writing a block alters fields of the in-memory object: " + ", ".join(names[:8]),
+                              "model": l[:600], "impl_bytes": kv["b1"][:1200]})
     sres = be.par_run(plain, "blocks", scases, timeout=180, env=env)
     for c, (_, l, crash) in zip(scases, sres):
         if crash is not None or l is None or "same12=" not in l:
